@@ -777,6 +777,31 @@ func checkPendingCleanup(r *Report, s *Sem, rule string) {
 // offeredSetLookupGuard: block b is reached only through the ok edge of a lookup of ses.<field> in a map built only from
 // elements of slice parameters of fn.
 func offeredSetLookupGuard(b *ssa.BasicBlock, fn *ssa.Function, ses ssa.Value, field string) bool {
+	// the offered list of the same kind as the member looked up ('none' is a name in both kinds: a set that mixes the
+	// compression and the encryption offer accepts an encryption 'none' that was never offered)
+	sameKind := func(pr *ssa.Parameter) bool {
+		sl, ok := pr.Type().Underlying().(*types.Slice)
+		if !ok {
+			return false
+		}
+		n := namedOf(sl.Elem())
+		if n == nil {
+			return false
+		}
+		// the type of the member looked up (Session.<field>, possibly behind a pointer)
+		if curProg != nil {
+			if f := curProg.Field("Session", field); f != nil {
+				ft := f.Type()
+				if pt, ok := ft.(*types.Pointer); ok {
+					ft = pt.Elem()
+				}
+				if fn := namedOf(ft); fn != nil {
+					return fn.Obj() == n.Obj()
+				}
+			}
+		}
+		return n.Obj().Name() == "Session"+field
+	}
 	return condGuard(b, func(cd Cond) bool {
 		// a hand-written scan: the edge `offered[i] == peer.field` for an element of the offered list handed to this function
 		if cd.Op == token.EQL {
@@ -785,7 +810,7 @@ func offeredSetLookupGuard(b *ssa.BasicBlock, fn *ssa.Function, ses ssa.Value, f
 				x, y = y, x
 			}
 			if fieldOf(x, ses, field) {
-				if pr := sliceElemParam(y); pr != nil && pr.Parent() == fn {
+				if pr := sliceElemParam(y); pr != nil && pr.Parent() == fn && sameKind(pr) {
 					return true
 				}
 			}
@@ -797,7 +822,7 @@ func offeredSetLookupGuard(b *ssa.BasicBlock, fn *ssa.Function, ses ssa.Value, f
 		if call, _ := callOf(cd.Val); call != nil {
 			if list, elem, isMember := membershipCall(curProg, call); isMember && fieldOf(elem, ses, field) {
 				for _, o := range sliceOrigins(list) {
-					if pr, isParam := stripConv(o).(*ssa.Parameter); !isParam || pr.Parent() != fn {
+					if pr, isParam := stripConv(o).(*ssa.Parameter); !isParam || pr.Parent() != fn || !sameKind(pr) {
 						return false
 					}
 				}
@@ -821,7 +846,7 @@ func offeredSetLookupGuard(b *ssa.BasicBlock, fn *ssa.Function, ses ssa.Value, f
 			if mu, ok := ref.(*ssa.MapUpdate); ok {
 				n++
 				pr := sliceElemParam(mu.Key)
-				if pr == nil || pr.Parent() != fn {
+				if pr == nil || pr.Parent() != fn || !sameKind(pr) {
 					okAll = false
 				}
 			}
